@@ -34,8 +34,11 @@ def plan_with_clear(pg):
     for _ in range(rng.choice([0, 1, 2])):
         pre.extend(pg.point(devices=pg.dets[:1], checkpoint=0.8))
     nonres = [msg(S, "clear_checkpoint")]
+    # (a clean-up that contains a checkpoint is only legal if no event bundle can be open when it starts: these raw
+    # message plans do not drop their bundle on the way out, so such plans take no data in the section)
+    cleanup_checkpoint = rng.random() < 0.3
     for _ in range(rng.choice([1, 2, 3])):
-        kind = rng.choice(["point", "nulls", "sleep", "set"])
+        kind = rng.choice(["nulls", "sleep", "set"] if cleanup_checkpoint else ["point", "nulls", "sleep", "set"])
         if kind == "point":
             nonres.extend(pg.point(devices=pg.dets[:1], checkpoint=0.0))
         elif kind == "nulls":
@@ -57,6 +60,10 @@ def plan_with_clear(pg):
         nonres.append(msg(S, "pause"))  # a planned pause inside the section
         nonres.append(msg(S, "null"))
     fin_inner = [msg(S, "null")]
+    if cleanup_checkpoint:
+        # clean-up written as a plan of its own, with its checkpoint (it does not make the aborted plan resumable and
+        # a deferred pause still pending must not fire there)
+        fin_inner += [msg(S, "checkpoint"), msg(S, "null")]
     if pg.motors:
         g = pg.group()
         fin_inner += [msg(S, "set", pg.motors[0], 0.0, group=g), msg(S, "wait", None, group=g)]
@@ -99,6 +106,10 @@ def cases(seed, tier):
         c = copy.deepcopy(case)
         c["variant"] = j
         inj = gen.gen_injections(rng, n, kinds=["pause", "trip", "pause"], k=rng.choice([1, 1, 2]), slack=2)
+        if rng.random() < 0.3:
+            # a deferred pause asked for a little earlier and still pending when the interruption strikes
+            first = min(i_["at"]["step"] for i_ in inj)
+            inj.insert(0, {"id": "dp", "at": {"step": max(0, first - rng.choice([1, 2, 4, 8]))}, "do": "dpause"})
         for i in inj:
             if i["do"] == "trip":
                 i["args"] = generic.trip_args(rng)
